@@ -1,10 +1,10 @@
 (* C07 — Countdown and staircase timers fire once, on time, and survive a reboot.
-   Property theorems only: each is closed by `exact` of a lemma proved in C07/Proofs.v.
+   Property theorems only: each is closed by `exact` of a lemma proved in C07/Proofs.v, C07/Once.v or C07/Restart.v.
    `e` selects the variant of supla_esp_countdown_timer_countdown (false: original code, true: the repair
    docs/fixes/C07_countdown_evaluate_first.diff: evaluate the running slots, then set up the new one and re-arm); the correspondence run uses the variant found in the tree. *)
 From Coq Require Import List ZArith Bool.
 Import ListNotations.
-From V Require Import Base.Bytes Gen.RelayConsts C07.Model C07.Proofs.
+From V Require Import Base.Bytes Gen.RelayConsts C07.Model C07.Proofs C07.Once C07.Restart.
 Local Open Scope Z_scope.
 
 (* Key invariant: after any history (commands on any channels, local switches, advances with any lateness script,
@@ -96,6 +96,66 @@ Theorem C07_restart_restores : forall e c s a r,
    exists t0, now s <= t0 <= now s + 8 * OP /\ In (GArm t0 (r_chan r) T (1 - v)) (outs s')).
 Proof. exact restore_one_thm. Qed.
 Print Assumptions C07_restart_restores.
+
+(* Exactly once (e = true), one statement.  A slot x that is running in s leaves the slot table only by its finish
+   callback, by a command on its channel, or by a restart (invariant `fate` over every operation, C07/Once.v).  So after
+   any events that are no command on x's channel and no restart, followed by an advance that reaches x's deadline, x's
+   switch-back is in the trace (it fired), and no arming of the trace has two switch-backs (it fired once). *)
+Theorem C07_exactly_once : forall c S s x post dt,
+  wf_cfg c -> Good s -> J true S s -> 0 <= S -> In x (slots s) -> active x = true ->
+  Forall wf_ev post -> (forall ev, In ev post -> ~ ev_chan c ev (s_chan x)) -> 0 <= dt ->
+  let s1 := run_from true c s post in
+  let s2 := step true c s1 (EAdv dt) in
+  NWrun true c s (post ++ [EAdv dt]) -> Slack S (outs s2) -> ~ In OFuel (outs s2) ->
+  g_t0 x + g_dur x * 1000 + CD_MIN * 1000 + 8 * OP <= now s1 + dt ->
+  fin_in x (outs s2) /\ NoDup (fins (outs s2)).
+Proof. exact exactly_once_thm. Qed.
+Print Assumptions C07_exactly_once.
+
+(* Cancel, including the command's own handler: a switch-back of channel ch that is in the trace after a command on ch
+   was either already there before the command was handled (state s1) or belongs to a timer armed at or after it.  The
+   handler disarms the old timer before it evaluates the slot table, so the old timer cannot fire inside the command. *)
+Theorem C07_cancel_full : forall e c pre x post ch,
+  wf_cfg c -> Forall wf_ev (pre ++ x :: post) -> NWrun e c (start e c) (pre ++ x :: post) -> cmd_on c x ch ->
+  let s1 := run_from e c (start e c) pre in
+  forall tcb tg t0 dur u0 u, In (GFinish tcb ch tg t0 dur u0 u) (outs (run_from e c (start e c) (pre ++ x :: post))) ->
+    In (GFinish tcb ch tg t0 dur u0 u) (outs s1) \/ now s1 <= t0.
+Proof. exact cancel_full_thm. Qed.
+Print Assumptions C07_cancel_full.
+
+(* Restart, the whole restore loop of supla_esp_gpio_init (boot = user_init order, s = what survives the power loss:
+   clock, flash image, trace).  For a board of at most 8 relays with pairwise different gpios and channels, every relay
+   with a restore flag comes back at its saved level unless the timer re-armed for it has already switched it back
+   during the loop (add = the trace of this boot), and its saved remaining time is armed again with the opposite
+   target, whatever the relays before it did (they cannot use up the slot table, touch its saved bytes or its pin). *)
+Theorem C07_restart_restores_all : forall e c s,
+  wf_cfg c -> NoDup (map r_gpio (c_relays c)) -> NoDup (map r_chan (c_relays c)) -> (length (c_relays c) <= 8)%nat ->
+  TrO s -> 0 <= cnt0 s -> tb s <= now s ->
+  let s' := boot e c s in
+  NW s' ->
+  exists add, outs s' = add ++ outs s /\
+  forall a r, In (a, r) (enum 0 (c_relays c)) -> restoring r = true ->
+    let v := getz (fl_relay s) a in
+    let T := getz (fl_t2 s) (r_chan r) in
+    v = 0 \/ v = 1 ->
+    (pin s' (r_gpio r) = xorb (v =? 1) (hasf (r_flags r) FLAG_LO_LEVEL) \/ newfin (r_chan r) add) /\
+    (0 < T < 2147483648 ->
+     v = 1 \/ (getz (time2 s) (r_chan r) = 0 /\ hasf (chfl_init c r) CHFLAG_COUNTDOWN = true) ->
+     exists t0, now s <= t0 <= now s + (a + 1) * (9 * OP) /\ In (GArm t0 (r_chan r) T (1 - v)) (outs s')).
+Proof. exact restore_all_thm. Qed.
+Print Assumptions C07_restart_restores_all.
+
+(* ... and its hypotheses hold for a board with two restoring relays ("on for 5 s", "on for 7 s", power loss after
+   2 s); the restart arms 4042 ms and 6052 ms (the remaining times in the state sector written after 1 s). *)
+Example C07_restart_all_hypotheses_satisfiable :
+  wf_cfg two_cfg /\ NoDup (map r_gpio (c_relays two_cfg)) /\ NoDup (map r_chan (c_relays two_cfg)) /\
+  (length (c_relays two_cfg) <= 8)%nat /\ TrO two_pre /\ 0 <= cnt0 two_pre /\ tb two_pre <= now two_pre /\
+  NW (boot true two_cfg two_pre) /\
+  (fl_relay two_pre, fl_t2 two_pre) = ([1; 1; 0; 0; 0; 0; 0; 0], [4042; 6052; 0; 0; 0; 0; 0; 0]) /\
+  filter (fun o => match o with GArm t0 _ _ _ => now two_pre <=? t0 | _ => false end) (outs (boot true two_cfg two_pre)) =
+    [GArm 2050100 1 6052 0; GArm 2040080 0 4042 0].
+Proof. exact restore_all_witness_thm. Qed.
+Print Assumptions C07_restart_all_hypotheses_satisfiable.
 
 (* The hypotheses of the theorems above are satisfiable: concrete boards and histories meeting them. *)
 Example C07_hypotheses_satisfiable :
